@@ -149,8 +149,8 @@ def r2_seal_reaches_hash_inputs(chk: Check):
         chk.require(a in args, chk.fkey(f, f"descends into {what}"), f"the configuration walk (used for sealing) does not descend into {what}, which the identifier depends on: it would stay editable after submission", loc)
     # argument values, list elements, dict values
     loops = {src(n.ast.iter): n for n in g.live if n.kind == "for"}
-    for it, what in (("info.xpmvalues()", "argument values"), ("enumerate(x)", "list elements"), ("x.items()", "dict values")):
-        lp = loops.get(it)
+    for its, what in ((("info.xpmvalues()", "x.__xpm__.xpmvalues()"), "argument values"), (("enumerate(x)",), "list elements"), (("x.items()",), "dict values")):
+        lp = next((loops[i] for i in its if i in loops), None)
         ok = lp is not None and any(isinstance(c, ast.Call) and isinstance(c.func, ast.Name) and c.func.id == "self" for s in lp.ast.body for c in walk_local(s))
         chk.require(ok, chk.fkey(f, f"descends into {what}"), f"the configuration walk does not descend into {what}", loc)
     # task descent only with recurse_task; the sealer asks for it
